@@ -1,5 +1,114 @@
 import AiocoapModel.Basic.Bytes
-/-! Line protocol for C16 (not built yet). -/
+import AiocoapModel.Uri.Compose
+import AiocoapModel.Uri.Ip6
+/-! Line protocol for the URI model (C16).  Bytes are lower-case hex (`-` = empty), an absent
+optional value is `~`, a list of byte strings is `.` (empty) or its items joined by `,`.
+
+`C16 Q <p|q|h> <hex>`      → quote with the path / query / reg-name safe set
+`C16 U <hex>`              → `<unquote hex> <1|0>` (1 = strict UTF-8 decoding succeeds)
+`C16 J <host> <port|~>`    → hostportjoin
+`C16 H <hostport>`         → `<host|~> <port|~>` or `err` (ValueError)
+`C16 N <text>`             → str(IPv6Address(text)) or `!`
+`C16 P <text>`             → urlsplit: `<scheme> <netloc> <path> <query> <fragment>` or `err`
+`C16 S <text>`             → set_request_uri then get_request_uri:
+                             `ok <scheme> <hostinfo> <urihost|~> <path> <query> | <uri|!>`,
+                             `proxy`, `err:incomplete`, `err:malformed`
+`C16 G <scheme> <hostinfo> <urihost|~> <uriport|~> <path> <query>` → get_request_uri text or `!`
+-/
+namespace Aiocoap.Uri
+
+def showList (l : List Bytes) : String :=
+  if l.isEmpty then "." else ",".intercalate (l.map bytesToHex)
+
+def parseList (s : String) : Option (List Bytes) :=
+  if s = "." then some [] else (s.splitOn ",").mapM hexToBytes
+
+def parseOptBytes (s : String) : Option (Option Bytes) :=
+  if s = "~" then some none else (hexToBytes s).map some
+
+def parseOptNat (s : String) : Option (Option Nat) :=
+  if s = "~" then some none else s.toNat?.map some
+
+def showOptBytes : Option Bytes → String
+  | none => "~"
+  | some b => bytesToHex b
+
+def showOptNat : Option Nat → String
+  | none => "~"
+  | some n => toString n
+
+/-- what `urllib` does with a non-ASCII netloc (NFKC check, Unicode lower-casing) is not
+modelled -/
+def netlocAscii (u : Bytes) : Bool := (splitAuthority u).2.1.all (· < 128)
+
+def showOutcome : Outcome → String
+  | .proxy => "proxy"
+  | .incomplete => "err:incomplete"
+  | .malformed => "err:malformed"
+  | .ok o =>
+    s!"ok {bytesToHex o.scheme} {bytesToHex o.hostinfo} {showOptBytes o.uriHost} " ++
+    s!"{showList o.path} {showList o.query} | " ++
+    (match getRequestUri pyIp o with
+     | some u => bytesToHex u
+     | none => "!")
+
+end Aiocoap.Uri
+
 namespace Aiocoap
-def handleC16 (_args : List String) : String := "out-of-model"
+open Aiocoap.Uri
+
+def handleC16 (args : List String) : String :=
+  match args with
+  | ["Q", k, h] =>
+    match hexToBytes h with
+    | some b =>
+      if k = "p" then bytesToHex (quote pathSafe b)
+      else if k = "q" then bytesToHex (quote querySafe b)
+      else if k = "h" then bytesToHex (quote regNameSafe b)
+      else "bad-op"
+    | none => "bad-op"
+  | ["U", h] =>
+    match hexToBytes h with
+    | some b => bytesToHex (unquote b) ++ (if utf8Valid (unquote b) then " 1" else " 0")
+    | none => "bad-op"
+  | ["J", h, p] =>
+    match hexToBytes h, parseOptNat p with
+    | some h, some p => bytesToHex (hostportjoin h p)
+    | _, _ => "bad-op"
+  | ["H", h] =>
+    match hexToBytes h with
+    | some hp =>
+      if !hp.all (· < 128) then "out-of-model" else
+      match hostportsplit hp with
+      | some (h, p) => showOptBytes h ++ " " ++ showOptNat p
+      | none => "err"
+    | none => "bad-op"
+  | ["N", h] =>
+    match hexToBytes h with
+    | some t => (match norm6Impl t with | some y => bytesToHex y | none => "!")
+    | none => "bad-op"
+  | ["P", h] =>
+    match hexToBytes h with
+    | some u =>
+      if !netlocAscii u then "out-of-model" else
+      match urlsplit pyIp u with
+      | some p => s!"{bytesToHex p.scheme} {bytesToHex p.netloc} {bytesToHex p.path} " ++
+                  s!"{bytesToHex p.query} {bytesToHex p.fragment}"
+      | none => "err"
+    | none => "bad-op"
+  | ["S", h] =>
+    match hexToBytes h with
+    | some u => if !netlocAscii u then "out-of-model" else showOutcome (setRequestUri pyIp u)
+    | none => "bad-op"
+  | ["G", sc, hi, uh, up, pa, qu] =>
+    match hexToBytes sc, hexToBytes hi, parseOptBytes uh, parseOptNat up, parseList pa,
+          parseList qu with
+    | some scheme, some hostinfo, some uriHost, some uriPort, some path, some query =>
+      if !hostinfo.all (· < 128) then "out-of-model" else
+      match getRequestUri pyIp { scheme, hostinfo, uriHost, uriPort, path, query } with
+      | some u => bytesToHex u
+      | none => "!"
+    | _, _, _, _, _, _ => "bad-op"
+  | _ => "bad-op"
+
 end Aiocoap
